@@ -159,13 +159,13 @@ func evalC18(c *Ctx, grant string, other int, note string) {
 }
 
 func runC18(c *Ctx) {
-	c.Res.Rule = "activations with granted subjects of every shape (literal, inner / trailing / leading wildcard, > alone, 1-6 tokens, tokens that merely contain * or >) x random other fields x v1 and v2 encoders: HashID = base32(SHA-256(issuer.subject.prefix)) with the prefix computed by the harness's own definition; unchanged by encode/decode/re-encode, by every other field, by v1->v2 migration; equal to what the v1 library computes for the same token; different for different issuer / subject / prefix; refused when a component is missing. The base string also comes from the Lean model. non-trivial = distinct granted subjects."
+	c.Res.Rule = "activations with granted subjects of every shape (literal, inner / trailing / leading wildcard, > alone, 1-6 tokens, tokens that merely contain * or >, multi-byte tokens) x random other fields x v1 and v2 encoders: HashID = base32(SHA-256(issuer.subject.prefix)) with the prefix computed by the harness's own definition; unchanged by encode/decode/re-encode, by every other field, by v1->v2 migration; equal to what the v1 library computes for the same token; different for different issuer / subject / prefix; refused when a component is missing. The base string also comes from the Lean model. non-trivial = distinct granted subjects."
 	shapes := []string{"foo", "foo.bar", "foo.*", "foo.>", "foo.*.bar", "foo.bar.*.baz.>", "*", ">", "*.foo", "*.*", "a.b.c.d.e.f", "a*.b", "a.>b.c", "a.*b.*", "x.y.>", "$SYS.*.z", "_", "_.a", "q.*.*.r"}
 	for i, g := range shapes {
 		evalC18(c, g, i, "fixed")
 	}
 	evalC18(c, "", 0, "missing-grant")
-	toks := []string{"a", "b", "foo", "*", ">", "*", "x*", ">y", "_", "$1"}
+	toks := []string{"a", "b", "foo", "*", ">", "*", "x*", ">y", "_", "$1", "é", "日本", "café", "📦"}
 	for i := 0; i < c.N(300, 30000); i++ {
 		n := 1 + c.R.Intn(6)
 		var t []string
